@@ -5,6 +5,7 @@ package main
 import (
 	"fmt"
 	"go/ast"
+	"go/parser"
 	"go/constant"
 	"go/token"
 	"go/types"
@@ -35,6 +36,7 @@ type SpecEnv struct {
 	bound map[string]bool
 	quantDepth int
 	ghostSt    *State
+	prev       map[string]SpecVal
 }
 
 func (f *Frame) baseEnv(st *State) *SpecEnv {
@@ -616,6 +618,10 @@ func (env *SpecEnv) binary(n *ast.BinaryExpr) (SpecVal, error) {
 		}
 		return SpecVal{T: r, Typ: boolT}, nil
 	}
+	if a.T.Sort == SStr && b.T.Sort == SStr && n.Op == token.ADD {
+		r := app(SStr, "strcat", a.T, b.T)
+		return SpecVal{T: r, Typ: types.Typ[types.String]}, nil
+	}
 	if a.T.Sort.bvWidth() == 0 || a.T.Sort != b.T.Sort {
 		return SpecVal{}, fmt.Errorf("operator %s on sorts %s, %s", n.Op, a.T.Sort, b.T.Sort)
 	}
@@ -769,7 +775,21 @@ func (env *SpecEnv) callExpr(n *ast.CallExpr) (SpecVal, error) {
 			env.ghostSt = nil
 		}
 		return v, err
-	case "called":
+	case "prev":
+		// prev(x): value of the loop-carried variable x at the loop head (only inside `step` clauses)
+		if len(n.Args) != 1 || env.prev == nil {
+			return SpecVal{}, fmt.Errorf("prev(x) is only available in loop step clauses")
+		}
+		id, ok := n.Args[0].(*ast.Ident)
+		if !ok {
+			return SpecVal{}, fmt.Errorf("prev needs a variable name")
+		}
+		v, ok := env.prev[id.Name]
+		if !ok {
+			return SpecVal{}, fmt.Errorf("prev(%s): not a loop-carried variable", id.Name)
+		}
+		return v, nil
+	case "called", "itercalled":
 		if len(n.Args) != 1 {
 			return SpecVal{}, fmt.Errorf("called(F) needs one argument")
 		}
@@ -777,7 +797,7 @@ func (env *SpecEnv) callExpr(n *ast.CallExpr) (SpecVal, error) {
 		if !contains(e.tracked, pat) {
 			return SpecVal{}, fmt.Errorf("called(%s): pattern is not tracked", pat)
 		}
-		gn := ghostName("called", pat, -1)
+		gn := ghostName(name, pat, -1)
 		if !e.predecl[gn+"@0"] {
 			e.predeclare(gn+"@0", fmt.Sprintf("(declare-const %s@0 Bool)\n(assert (not %s@0))", gn, gn))
 		}
@@ -911,6 +931,27 @@ func (env *SpecEnv) callExpr(n *ast.CallExpr) (SpecVal, error) {
 		}
 		e.trust("pure (deterministic, state-independent) function assumed: " + ct.Key)
 		return SpecVal{T: env.f.ufResultSorts(ct.Key, int(iv.T.c), vals, rtp), Typ: rtp}, nil
+	case "gouf_bool", "gouf_string", "gouf_int":
+		// gouf_T("pkg.Func", args...): the deterministic uninterpreted function that models the Go library
+		// function pkg.Func at call sites (strings.*, strconv.*, filepath.*, ...), result type T
+		if len(n.Args) < 1 {
+			return SpecVal{}, fmt.Errorf("%s needs a function name", name)
+		}
+		fname := patternOf(n.Args[0])
+		if !isDeterministic(fname) {
+			return SpecVal{}, fmt.Errorf("%s: %s is not modelled as a deterministic function", name, fname)
+		}
+		var vals []Value
+		for _, a := range n.Args[1:] {
+			v, err := env.eval(a)
+			if err != nil {
+				return SpecVal{}, err
+			}
+			vals = append(vals, Value{T: v.T})
+		}
+		rtp := map[string]types.Type{"gouf_bool": types.Typ[types.Bool], "gouf_string": types.Typ[types.String], "gouf_int": types.Typ[types.Int]}[name]
+		e.trust("effect-free library call (A4/A7): " + fname)
+		return SpecVal{T: env.f.ufResultSorts(fname, 0, vals, rtp), Typ: rtp}, nil
 	case "buflen":
 		// buflen(b): ghost length of a *bytes.Buffer
 		args, err := evalArgs()
@@ -1037,6 +1078,12 @@ func (env *SpecEnv) specSort(tn string) (Sort, types.Type) {
 		return SIface, types.Universe.Lookup("error").Type()
 	case "bytes": // content-level byte string: (row, off, len) abstracted as an uninterpreted sort
 		return Sort("Bytes"), nil
+	}
+	// a Go type of the package (or an imported one)
+	if x, err := parser.ParseExpr(tn); err == nil {
+		if t := env.lookupType(x); t != nil {
+			return env.e.sortOf(t), t
+		}
 	}
 	return SRef, nil
 }
